@@ -274,6 +274,16 @@ func genUUID(e *emitter, rng *rand.Rand, thorough bool) {
 			e.emit(strings.Repeat("f", n))
 		}
 	}
+	// lengths that collapse to 36 when the length is narrowed to 8 or 16 bits: a valid UUID followed by 256·k or 65536·k more
+	// bytes (hex digits, a second UUID repeated, NULs), and valid-looking layouts repeated
+	for _, b := range []string{"550e8400-e29b-41d4-a716-446655440000", "FFFFFFFF-FFFF-FFFF-FFFF-FFFFFFFFFFFF"} {
+		for _, extra := range []int{220, 256, 512, 768, 65536, 131072, 65536 + 256} {
+			e.emit(b + strings.Repeat("0", extra))
+			e.emit(b + strings.Repeat("\x00", extra))
+			e.emit(b + strings.Repeat(b, extra/36+1)[:extra])
+			e.emit(strings.Repeat("0", extra) + b)
+		}
+	}
 	// random case renderings
 	nr := 2000
 	if thorough {
